@@ -8,7 +8,7 @@ confirm = {}
 for f in glob.glob("/tmp/mut/confirm*.log") + glob.glob("/tmp/claude-0/-verif/*/tasks/*.output"):
     try:
         for line in open(f, errors="ignore"):
-            m = re.match(r"CONFIRM ([CDE]\d+)-out ([AB]): suite_with_change_exit=(\d+) demo_with_change_exit=(\d+) demo_without_change_exit=(\d+)", line)
+            m = re.match(r"CONFIRM ([CDEM]\d+)-out ([ABC]): suite_with_change_exit=(\d+) demo_with_change_exit=(\d+) demo_without_change_exit=(\d+)", line)
             if m:
                 confirm[(m.group(1), m.group(2))] = (int(m.group(3)), int(m.group(4)), int(m.group(5)))
     except Exception:
@@ -16,15 +16,15 @@ for f in glob.glob("/tmp/mut/confirm*.log") + glob.glob("/tmp/claude-0/-verif/*/
 results = {}
 for f in sorted(glob.glob("/tmp/mut/q*.log")):
     for line in open(f):
-        m = re.match(r"RESULT patch=([CDE]\d+)-out/([AB])[^ ]* check=(C\d+) exit=(\d+) secs=(\d+) ?(.*)", line)
+        m = re.match(r"RESULT patch=([CDEM]\d+)-out/([ABC])[^ ]* check=(C\d+) exit=(\d+) secs=(\d+) ?(.*)", line)
         if m:
             key = (m.group(1), m.group(2))
             sigs = re.findall(r"signature=(\S+)", m.group(6))
             results.setdefault(key, {})[m.group(3)] = (int(m.group(4)), int(m.group(5)), sigs[:2])
 rows = []
-for d in sorted(glob.glob("/tmp/wt/[CDE]*-out")):
+for d in sorted(glob.glob("/tmp/wt/[CDEM]*-out")):
     prop = os.path.basename(d)[:3]
-    for x in "AB":
+    for x in "ABC":
         patches = glob.glob(f"{d}/{x}*.patch.diff")
         if not patches:
             continue
@@ -35,7 +35,13 @@ for d in sorted(glob.glob("/tmp/wt/[CDE]*-out")):
             print(f"NOT CONFIRMED {key}: {c}", file=sys.stderr)
             continue
         real_prop = "C" + prop[1:]
-        name = f"{real_prop}-{x}" if prop[0] == "C" else (f"{real_prop}-r2-{x}" if prop[0] == "D" else f"{real_prop}-r3-{x}")
+        if prop[0] == "M":
+            real_prop = "?"
+            for mt in glob.glob(f"{d}/{x}*.meta.txt"):
+                m = re.search(r"PROPERTY:\s*(C\d\d)", open(mt, errors="ignore").read())
+                if m:
+                    real_prop = m.group(1)
+        name = f"{real_prop}-{x}" if prop[0] == "C" else (f"{real_prop}-r2-{x}" if prop[0] == "D" else (f"{real_prop}-r3-{x}" if prop[0] == "E" else f"mod-{prop}-{x}"))
         dst = f"{OUT}/{name}"
         os.makedirs(dst, exist_ok=True)
         shutil.copy(patches[0], f"{dst}/patch.diff")
@@ -50,7 +56,7 @@ for d in sorted(glob.glob("/tmp/wt/[CDE]*-out")):
         inconclusive = sorted(k for k, v in res.items() if v[0] not in (0, 1))
         meta = {
             "breaks_property": real_prop,
-            "author": "sub-agent that saw only the property text and its own scratch worktree" + ("" if prop[0] == "C" else " (later round: it was also told, in one or two lines each, which changes the earlier rounds had delivered, and asked for different mechanisms)"),
+            "author": ("sub-agent that was given one part of the sources, the list of the 20 properties and its own scratch worktree (round 4, module-driven)" if prop[0] == "M" else "sub-agent that saw only the property text and its own scratch worktree") + ("" if prop[0] == "C" else " (later round: it was also told, in one or two lines each, which changes the earlier rounds had delivered, and asked for different mechanisms)"),
             "what_it_needs_to_manifest": meta_txt.strip(),
             "confirmed_by_me": {
                 "how": "tools/confirm_mutant.sh in the scratch worktree /tmp/mut/repo-confirm: cargo test --workspace --offline with the change; the demonstration as tests/demo_x.rs with and without the change",
